@@ -713,6 +713,61 @@ macro_rules! shape {
                     }
                 }
 
+                // ---- combinators evaluated INSIDE a continuation, after a nested continuation failed and the
+                // enclosing code recovered from that failure: the table rows hold there as well
+                for &outer in &["and_then", "and_also"] {
+                    for &nested in &["and_then", "and_also", "ResultExt::and_also"] {
+                        let alt_calls = Cell::new(0);
+                        let cont_calls = Cell::new(0);
+                        let body = |t0: u32| -> Result<U, E> {
+                            // a nested failure ...
+                            let recovered: Result<Option<T>, E> = match nested {
+                                "and_then" => Res(Ok(T::mk(1))).and_then(|_| Err::<T, E>(E::mk(77))).optional(),
+                                "and_also" => Res(Ok(T::mk(1))).and_also(|_| Err::<(), E>(E::mk(77))).optional(),
+                                _ => ResultExt::and_also(Ok::<T, E>(T::mk(1)), |_| Err::<(), E>(E::mk(77))).map(Some),
+                            };
+                            // ... that the enclosing code inspects and recovers from
+                            let nested_failed = matches!(&recovered, Err(e) if e.0 == 77);
+                            // now the rows: alternative runs on Fallthrough, continuation runs on Res(Ok)
+                            let alt: Parsed<T, E> = Parsed::<T, E>::Fallthrough.or_parse(|| {
+                                alt_calls.set(alt_calls.get() + 1);
+                                Res(Ok(T::mk(12)))
+                            });
+                            let cont: Parsed<T, E> = Res(Ok(T::mk(5))).and_then(|x| {
+                                cont_calls.set(cont_calls.get() + 1);
+                                Ok(T::mk(x.0 + 1))
+                            });
+                            match (alt, cont, nested_failed) {
+                                (Res(Ok(a)), Res(Ok(c)), true) => Ok(U::mk(t0 + a.0 + c.0)),
+                                (a, c, f) => Err(E::mk(
+                                    1000 + (matches!(a, Res(Ok(_))) as u32) * 100 + (matches!(c, Res(Ok(_))) as u32) * 10 + f as u32,
+                                )),
+                            }
+                        };
+                        let got: String = match outer {
+                            "and_then" => show(&recv(Recv::Ok).and_then(|t| body(t.0))),
+                            _ => {
+                                let inner = Cell::new(String::new());
+                                let r = recv(Recv::Ok).and_also(|t| {
+                                    let b = body(t.0);
+                                    inner.set(show_r(&b));
+                                    b.map(|_| ())
+                                });
+                                format!("{} / inner {}", show(&r), inner.take())
+                            }
+                        };
+                        let exp = match outer {
+                            "and_then" => "Res(Ok(U(29)))".to_string(),
+                            _ => "Res(Ok(T(11))) / inner Ok(U(29))".to_string(),
+                        };
+                        push(
+                            format!("inside-{}-after-recovered-failure-of-nested-{}", outer, nested),
+                            obs(got, alt_calls.get() * 10 + cont_calls.get(), "".into()),
+                            obs(exp, 11, "".into()),
+                        );
+                    }
+                }
+
                 // ---- From<Result> and ResultExt on {Ok, Err}
                 for &ok in &[true, false] {
                     let res = |ok: bool| -> Result<T, E> {
